@@ -85,12 +85,7 @@ def cases(ctx, classes):
 
 def check(ctx):
     from pathlib import Path
-    classes = ctx.driver("C08", ["classes"])[0][3:].split(",")
-    listed = (Path(__file__).resolve().parent.parent / "translate" / "c07_classes.txt").read_text().split()
-    if listed != classes:
-        ctx.disagree("class-list", "translate/c07_classes.txt", listed, classes)
-    unc = ctx.driver("C07", ["uncovered"])[0][3:]
-    ctx.extra_cov["classes_not_covered_by_their_annotations"] = [] if unc == "-" else unc.split(",")
+    classes = (Path(__file__).resolve().parent.parent / "translate" / "c07_classes.txt").read_text().split()
     cs = cases(ctx, classes)
     insts, reqs_decl, reqs_probe = [], [], []
     for (name, a, b, c, imm) in cs:
@@ -106,7 +101,12 @@ def check(ctx):
         reqs_decl.append(f"decl {name} {a} {b} {c}")
         st = lambda xs: ",".join(map(str, xs)) if xs else "-"
         reqs_probe.append(f"probe {bs.hex()} {st(used)} {st(defined)} {1 if name in IMPLICIT_SP else 0}")
-    out = ctx.driver("C07", reqs_decl + reqs_probe)
+    out = ctx.driver("C07", ["uncovered", "classes"] + reqs_decl + reqs_probe)
+    unc = out[0][3:]
+    ctx.extra_cov["classes_not_covered_by_their_annotations"] = [] if unc == "-" else unc.split(",")
+    if out[1][3:].split(",") != classes:
+        ctx.disagree("class-list", "translate/c07_classes.txt", classes, out[1][3:].split(","))
+    out = out[2:]
     decl, probe = out[:len(insts)], out[len(insts):]
     for (cse, ins, bs, used, defined), d, p in zip(insts, decl, probe):
         name = cse[0]
